@@ -60,6 +60,7 @@ def _proj1(v, k):
 
 class C10(e1.E1Check):
     id = "C10"
+    l3_table = "C10"
     types_quick = [rec(("x", I), ("y", var(I))), var(rec(("x", I), ("y", F))), tup(I, var(F)), opt(rec(("x", I))),
                    var(opt(rec(("x", I), ("y", var(I))))), rec(("x", rec(("a", I), ("b", var(I)))), ("y", I)), rec(),
                    reg(2, rec(("x", I))), var(var(rec(("x", I), ("y", S)))), rec(("x", opt(I)), ("y", var(I))), var(tup(I, I)),
